@@ -1,6 +1,16 @@
 /-
-C04 — completeness of the fetch loop for well-formed responses (in progress: the request as groups of adjacent extents, the
-transport's pieces, the header callback on the response lines, the single-range path from any fresh context).
+C04 — completeness of the update procedure for well-formed responses.
+  `req_ready`         a round's request = the spans of groups of adjacent extents of chunks that are missing and have stored bytes
+                      (from C10's `missing_spec`; `specRanges_groups`, `sliceIncl_group`: the server's slice for a range is the
+                      concatenation of the stored bytes of its group);
+  `Honest`            what the regex oracle must do on the reference server's responses (a HYPOTHESIS: glibc's regex is a parameter);
+  `session_single/_multi`, `round_complete`   one transfer / one round with such a response: carried out, every body fragment
+                      accepted under the transport's fragmentation, every requested chunk valid, no other mark changes
+                      (from C05's `single_fresh_frags` / `multipart_complete_frags_null`);
+  `loop_complete`     the fetch loop ends without error and with every chunk valid (induction on the number of marks still 0);
+  `afterHeader_complete`, `update_complete`   the procedure ends without error with the target = B, or a collision is exhibited.
+Hypotheses that remain: `Honest` (regex semantics + two facts about the response text), `Marks` (after scan, copy and reset
+there is one mark per chunk, 0 or 1, and chunks without stored bytes are valid).
 -/
 import ZckModel.Props.C04Req
 import ZckModel.Props.C05Feed
